@@ -35,6 +35,11 @@ def _dtype_variants(op, call, mats, ctx):
     stored as float32 give the minimiser computed for the float64 copy (exactly for integers, to single precision for float32)."""
     ints = [np.round(2 * np.asarray(m)).astype(np.int64) for m in mats]
     try:
+        ro = [m.astype(float) for m in ints]
+        for m in ro:
+            m.setflags(write=False)
+        with np.errstate(all="ignore"):
+            call(*ro)                      # read-only weights are read, never written (the result is a new array)
         with np.errstate(all="ignore"):
             ref_ = call(*[m.astype(float) for m in ints])
         ref_ = ref_ if isinstance(ref_, tuple) else (ref_,)
